@@ -23,6 +23,55 @@ def unescape(value: str, token: TokenT) -> str:
     return "".join(unescaped)
 
 
+_SHORT_ESCAPES = {
+    "\\": "\\\\",
+    "\x08": "\\b",
+    "\x0c": "\\f",
+    "\n": "\\n",
+    "\r": "\\r",
+    "\t": "\\t",
+}
+
+
+def escape(value: str, quote: str | None = None) -> str:
+    """Return _value_ as the text of a string literal that `unescape` reads back.
+
+    If _quote_ is `None`, the result is a complete string literal delimited by
+    single quotes, or double quotes if _value_ contains a single quote and no double
+    quotes. Otherwise the result is undelimited text for a string literal delimited
+    by _quote_.
+    """
+    delimit = quote is None
+    if quote is None:
+        quote = '"' if "'" in value and '"' not in value else "'"
+
+    escaped: list[str] = []
+    for index, ch in enumerate(value):
+        if ch in _SHORT_ESCAPES:
+            escaped.append(_SHORT_ESCAPES[ch])
+        elif ch == quote:
+            escaped.append("\\" + ch)
+        elif ch == "$" and value[index + 1 : index + 2] == "{":
+            # Not the start of an interpolated expression.
+            escaped.append("\\$")
+        elif ch.isprintable():
+            escaped.append(ch)
+        else:
+            code_point = ord(ch)
+            if code_point > 0xFFFF:
+                code_point -= 0x10000
+                escaped.append(
+                    f"\\u{0xD800 + (code_point >> 10):04x}"
+                    f"\\u{0xDC00 + (code_point & 0x3FF):04x}"
+                )
+            else:
+                escaped.append(f"\\u{code_point:04x}")
+
+    if delimit:
+        return f"{quote}{''.join(escaped)}{quote}"
+    return "".join(escaped)
+
+
 def _decode_escape_sequence(  # noqa: PLR0911
     value: str, index: int, token: TokenT
 ) -> tuple[str, int]:
